@@ -336,6 +336,24 @@ pub fn h_shim_alt<S: Src, const N: usize>(s: &mut S) {
 }
 harness!(shim_length_count, unwind = 7, h_shim_length_count::<_, 4>);
 harness!(shim_alt, unwind = 6, h_shim_alt::<_, 4>);
+// ---------------------------------------------------------------- tag (2 bytes)
+pub fn h_shim_tag<S: Src>(s: &mut S) {
+    use tp::nom::bytes::streaming::tag;
+    let buf: [u8; 4] = s.bytes();
+    let n = s.usize();
+    vassume!(s, n <= 4);
+    let t: [u8; 2] = s.bytes();
+    let i = &buf[..n];
+    let r: R<&[u8]> = tag(t)(i);
+    if (n >= 1 && i[0] != t[0]) || (n >= 2 && i[1] != t[1]) {
+        vassert!(s, matches!(&r, Err(Err::Error(e)) if e.code == ErrorKind::Tag && e.input.as_ptr() == i.as_ptr() && e.input.len() == n), "shim tag: a mismatch in the common prefix is Error(Tag) at the input, even when the input is short");
+    } else if n < 2 {
+        vassert!(s, needed_size(&r) == Some(2 - n), "shim tag: matching but short input => Incomplete(Size(missing))");
+    } else {
+        vassert!(s, matches!(&r, Ok((rem, out)) if is_sub(i, out, 0, 2) && is_suffix(i, rem, 2)), "shim tag: match => the two bytes, remainder after them");
+    }
+}
+harness!(shim_tag, unwind = 5, h_shim_tag);
 harness!(shim_verify, unwind = 6, h_shim_verify::<_, 4>);
 harness!(shim_pair, unwind = 6, h_shim_pair::<_, 4>);
 harness!(shim_opt_cond, unwind = 6, h_shim_opt_cond);
